@@ -198,7 +198,7 @@ def fam_id(name: str) -> int:
 class Built:
     """An implementation input built from a JSON-able case."""
 
-    def __init__(self, S, O, costs: dict, labelled: bool = False, unordered: bool = False):
+    def __init__(self, S, O, costs: dict, labelled: bool = False, unordered: bool = False, blank_internal: bool = False):
         from superrec2.model.reconciliation import ReconciliationInput, SuperReconciliationInput
         from superrec2.utils.trees import LowestCommonAncestor
         self.S, self.O, self.costs = S, O, costs
@@ -212,6 +212,12 @@ class Built:
             names = [fam_name(f) for f in leaf.get("syn", [])]
             syn[node] = (set(names) if unordered else names)
         self.otree = build_tree(O, "", "O", cb)
+        if blank_internal:
+            # ancestors without names, as when a Newick string gives leaf names only
+            for t in (self.stree, self.otree):
+                for n in t.traverse():
+                    if not n.is_leaf():
+                        n.name = ""
         self.opath = node_paths(self.otree)
         self.onode = {p: n for n, p in self.opath.items()}
         self.lca = LowestCommonAncestor(self.stree)
@@ -224,11 +230,13 @@ class Built:
     def canon(self, out, node=None):
         """ReconciliationOutput -> solution (species paths; trees may be copies: map by name)"""
         otree = out.input.object_tree
-        spath = {n.name: p for n, p in node_paths(out.input.species_lca.tree).items()}
+        by_id = node_paths(out.input.species_lca.tree)        # node object -> path (works without names)
+        spath = {n.name: p for n, p in by_id.items()}
         labelled = hasattr(out, "syntenies")
 
         def go(n):
-            s = spath[out.object_species[n].name]
+            sp = out.object_species[n]
+            s = by_id[sp] if sp in by_id else spath[sp.name]
             if labelled:
                 y = [fam_id(f) for f in out.syntenies[n]]
                 y = sorted(y) if not out.ordered else list(y)
